@@ -3,6 +3,7 @@ package main
 // Solver portfolio: z3 4.8.12, z3-new 5.1.0, cvc5 1.0.3 raced per obligation.
 
 import (
+	"runtime"
 	"context"
 	"fmt"
 	"go/types"
@@ -240,6 +241,16 @@ func solveOne(vc *VC, o *Obligation, workDir string, idx int, secs int, seed int
 	o.Seconds = time.Since(t0).Seconds()
 }
 
+// procSem bounds the number of solver processes running at once.
+var procSem = make(chan struct{}, maxInt(4, runtime.NumCPU()-2))
+
+func maxInt(a, b int) int {
+	if a > b {
+		return a
+	}
+	return b
+}
+
 // thoroughAgreement: wait for the other solvers after the first verdict (thorough tier).
 var thoroughAgreement bool
 
@@ -273,6 +284,15 @@ func solveVariant(parent context.Context, vc *VC, o *Obligation, workDir string,
 	for _, sv := range solvers {
 		sv := sv
 		go func() {
+			// at most one solver process per core: a query's time limit must not be
+			// eaten by other queries of the same run competing for the processor
+			select {
+			case procSem <- struct{}{}:
+			case <-ctx.Done():
+				ch <- ans{sv.name, "unknown", "cancelled", time.Since(t0).Seconds()}
+				return
+			}
+			defer func() { <-procSem }()
 			argv := sv.argv(scripts[sv.style], secs)
 			cmd := exec.CommandContext(ctx, argv[0], argv[1:]...)
 			out, _ := cmd.CombinedOutput()
